@@ -1,13 +1,24 @@
-// translator: regenerates coq/theories/Gen/*.v from the repository under test.
-// Minimal driver: every pass registers itself in `passes` from an init() function.
+// translator: re-emits pieces of the repository under test as Coq data (coq/theories/Gen/*.v).
+// Usage: translator -repo <path to Workiva/frugal tree> -out <dir>
+// Two registries, both filled from init() functions of the pass files:
+//   emitters: output file name -> function producing its content (written only when it changes)
+//   passes:   functions that write their own files (only when content changes)
+// so unchanged sources never trigger a Coq rebuild.
 package main
 
 import (
+	"bytes"
 	"flag"
 	"fmt"
 	"os"
+	"path/filepath"
+	"sort"
 )
 
+// emitters maps an output file name (e.g. "Grammar.v") to a function producing its content.
+var emitters = map[string]func(repo string) ([]byte, error){}
+
+// passes are run after the emitters.
 var passes []func(repo, out string) error
 
 func main() {
@@ -18,7 +29,42 @@ func main() {
 		fmt.Fprintln(os.Stderr, "translator: -out required")
 		os.Exit(2)
 	}
+	if err := os.MkdirAll(*out, 0o755); err != nil {
+		fmt.Fprintln(os.Stderr, "translator:", err)
+		os.Exit(2)
+	}
+	names := make([]string, 0, len(emitters))
+	for n := range emitters {
+		names = append(names, n)
+	}
+	sort.Strings(names)
 	rc := 0
+	for _, n := range names {
+		content, err := emitters[n](*repo)
+		if err != nil {
+			fmt.Fprintf(os.Stderr, "translator: %s: %v\n", n, err)
+			rc = 1
+			continue
+		}
+		p := filepath.Join(*out, n)
+		old, rerr := os.ReadFile(p)
+		if rerr == nil && bytes.Equal(old, content) {
+			fmt.Printf("translator: %s unchanged\n", n)
+			continue
+		}
+		tmp := p + ".tmp"
+		if err := os.WriteFile(tmp, content, 0o644); err != nil {
+			fmt.Fprintln(os.Stderr, "translator:", err)
+			rc = 1
+			continue
+		}
+		if err := os.Rename(tmp, p); err != nil {
+			fmt.Fprintln(os.Stderr, "translator:", err)
+			rc = 1
+			continue
+		}
+		fmt.Printf("translator: %s rewritten (%d bytes)\n", n, len(content))
+	}
 	for _, p := range passes {
 		if err := p(*repo, *out); err != nil {
 			fmt.Fprintln(os.Stderr, "translator:", err)
